@@ -434,6 +434,10 @@ theorem isSub_CTL_Formula (M : Logic) (f : Fm) :
     refTable.isSub (M, className f) (.CTL, "Formula") = (M == .CTL) := by
   cases M <;> cases f <;> rfl
 
+theorem isSub_LTL_Formula (M : Logic) (f : Fm) (h : opIn M f = true) :
+    refTable.isSub (M, className f) (.LTL, "Formula") = (M == .LTL) := by
+  cases M <;> cases f <;> first | rfl | simp [opIn] at h
+
 theorem isSub_CTLS_A (M : Logic) (f : Fm) (h : opIn M f = true) :
     refTable.isSub (M, className f) (.CTLS, "A") = (match f with | .A _ => true | _ => false) := by
   cases M <;> cases f <;> first | rfl | simp [opIn, plRoot] at h
@@ -632,63 +636,118 @@ theorem guardCTL_eq (Mobj : Logic) (f : Fm) (k : Bool) (hb : Mobj = .CTL → isC
     rw [hb (by simpa using hM)]
     exact fin
 
-/-- `LTL.modelcheck`: passes iff a Kripke structure and `A g`, `g` an LTL path formula, and the object is not a
-    CTL-module object (for those `LNot(g)` is `CTL.Not(<path formula>)`, a `TypeError`) -/
-theorem guardLTL_eq (Mobj : Logic) (f : Fm) (k : Bool) (hb : inLogic Mobj f = true) :
-    guardLTL refTable Mobj f k =
-      if k && (Mobj != .CTL) && (match f with | .A g => g.isLTLPath | _ => false) then .ok () else .error .typeError := by
-  unfold guardLTL
-  rw [isSub_CTLS_A _ _ (opIn_of_inLogic _ _ hb)]
+/-- `LTL.modelcheck` after the cast step, for an object of module `M` -/
+def guardLTLBody (T : ClassTable) (M : Logic) (f : Fm) (kripke : Bool) : Except Err Unit :=
+  if T.isSub (M, className f) (.CTLS, "A") then
+    if kripke then
+      match f with
+      | .A g =>
+        match construct T M g.lnot with
+        | .error e => .error e
+        | .ok () => if (LTL.toR g.lnot.restrict).isSome then .ok () else .error .typeError
+      | _ => .error .typeError
+    else .error .typeError
+  else .error .typeError
+
+theorem guardLTL_unfold (T : ClassTable) (Mobj : Logic) (f : Fm) (k : Bool) :
+    guardLTL T Mobj f k =
+      match (if (T.isSub (Mobj, className f) (.CTLS, "Formula") && !T.isSub (Mobj, className f) (.LTL, "Formula")) = true
+              then castTo T Mobj .LTL f else Except.ok ()) with
+      | .error _ => .error .typeError
+      | .ok () =>
+        guardLTLBody T
+          (if (T.isSub (Mobj, className f) (.CTLS, "Formula") && !T.isSub (Mobj, className f) (.LTL, "Formula")) = true
+            then .LTL else Mobj) f k := rfl
+
+/-- `A` applied to an LTL path formula -/
+def aLTLPath : Fm → Bool
+  | .A g => g.isLTLPath
+  | _ => false
+
+/-- an LTL-module object passes iff a Kripke structure and `A g` (`g` is then an LTL path formula) -/
+theorem guardLTLBody_LTL (f : Fm) (k : Bool) (hb : isLTL f = true) :
+    guardLTLBody refTable .LTL f k = if k && aLTLPath f then .ok () else .error .typeError := by
+  unfold guardLTLBody
+  rw [isSub_CTLS_A _ _ (opIn_of_inLogic .LTL _ hb)]
   cases f with
   | A g =>
     cases k
     · simp
-    · simp only [if_true, Bool.true_and]
-      cases Mobj with
-      | PL => simp [inLogic, isPL] at hb
-      | CTL =>
-        have hb' : isCTLState (.A g) = true := by simpa [inLogic, isCTL] using hb
-        rw [isCTLState_A, Bool.and_eq_true] at hb'
-        have h1 : construct refTable .CTL g.lnot = .error .typeError := by
-          rw [lnot_of_temporalRoot g hb'.2, construct, build_ref _ _ _ rfl]
-          have hk : build.buildList refTable .CTL .attributeError (children (Fm.not g)) = .ok () :=
-            (buildList_ok_iff _ _ _ _).mpr (fun f hf => by
-              simp only [children, List.mem_singleton] at hf
-              subst hf
-              exact (build_ok_iff .CTL _ _).mpr hb'.1)
-          rw [hk]
-          simp [opIn, children, childOK, quantRoot, hb'.2]
-        rw [h1]
-        simp
-      | LTL =>
-        have hg : isLTLPath g = true := by simpa [inLogic, isLTL] using hb
-        have h1 : construct refTable .LTL g.lnot = .ok () :=
-          (build_ok_iff .LTL _ _).mpr (isLTL_of_isLTLPath _ (LTL.isLTLPath_lnot' g hg))
-        rw [h1]
-        simp [(toR_front_iff g).mpr hg, hg]
-      | CTLS =>
-        have h1 : construct refTable .CTLS g.lnot = .ok () := (build_ok_iff .CTLS _ _).mpr rfl
-        rw [h1]
-        cases hg : isLTLPath g
-        · have : (LTL.toR g.lnot.restrict).isSome = false := by
-            cases h : (LTL.toR g.lnot.restrict).isSome
-            · rfl
-            · rw [(toR_front_iff g).mp h] at hg; cases hg
-          simp [this]
-        · simp [(toR_front_iff g).mpr hg]
-  | _ => simp
+    · simp only [if_true, Bool.true_and, aLTLPath]
+      have hg : isLTLPath g = true := by simpa [isLTL] using hb
+      have h1 : construct refTable .LTL g.lnot = .ok () :=
+        (build_ok_iff .LTL _ _).mpr (isLTL_of_isLTLPath _ (LTL.isLTLPath_lnot' g hg))
+      rw [h1]
+      simp [(toR_front_iff g).mpr hg, hg]
+  | _ => simp [aLTLPath]
 
-/-- `CTLS.modelcheck`: passes iff a Kripke structure and a CTL* state formula that is not a PL-module object -/
+/-- a PL-module object is not a `CTLS.A` -/
+theorem guardLTLBody_PL (f : Fm) (k : Bool) (hb : isPL f = true) :
+    guardLTLBody refTable .PL f k = .error .typeError := by
+  unfold guardLTLBody
+  rw [isSub_CTLS_A _ _ (opIn_of_inLogic .PL _ hb)]
+  cases f <;> first | rfl | simp [isPL] at hb
+
+theorem aLTLPath_false_of_not_isLTL (f : Fm) (h : isLTL f = false) : aLTLPath f = false := by
+  cases f <;> first | rfl | simpa [isLTL, aLTLPath] using h
+
+/-- the cast step of `LTL.modelcheck` followed by the rest: passes iff a Kripke structure and `A g`, `g` an LTL path
+    formula -/
+theorem guardLTL_cast (M : Logic) (f : Fm) (k : Bool) :
+    (match castTo refTable M .LTL f with
+      | .error _ => (.error .typeError : Except Err Unit)
+      | .ok () => guardLTLBody refTable .LTL f k) =
+    if k && aLTLPath f then .ok () else .error .typeError := by
+  cases hc : isLTL f
+  · obtain ⟨x, hx⟩ := build_not_ok .LTL .typeError f hc
+    rw [show castTo refTable M .LTL f = build refTable .LTL .typeError f from rfl, hx,
+      aLTLPath_false_of_not_isLTL f hc]
+    simp
+  · rw [show castTo refTable M .LTL f = build refTable .LTL .typeError f from rfl,
+      (build_ok_iff .LTL .typeError f).mpr hc]
+    exact guardLTLBody_LTL f k hc
+
+theorem guardLTL_eq' (Mobj : Logic) (f : Fm) (k : Bool) (hb : inLogic Mobj f = true) :
+    guardLTL refTable Mobj f k = if k && (Mobj != .PL) && aLTLPath f then .ok () else .error .typeError := by
+  have ho := opIn_of_inLogic _ _ hb
+  rw [guardLTL_unfold, isSub_CTLS_Formula _ _ ho, isSub_LTL_Formula _ _ ho]
+  cases Mobj with
+  | PL => simpa using guardLTLBody_PL f k hb
+  | CTL => simpa using guardLTL_cast .CTL f k
+  | LTL => simpa using guardLTLBody_LTL f k hb
+  | CTLS => simpa using guardLTL_cast .CTLS f k
+
+/-- `LTL.modelcheck`: passes iff a Kripke structure and `A g`, `g` an LTL path formula, and the object is not a
+    PL-module object (CTL- and CTLS-module objects are cast to LTL first; a PL-module object is not a `CTLS.A`) -/
+theorem guardLTL_eq (Mobj : Logic) (f : Fm) (k : Bool) (hb : inLogic Mobj f = true) :
+    guardLTL refTable Mobj f k =
+      if k && (Mobj != .PL) && (match f with | .A g => g.isLTLPath | _ => false) then .ok () else .error .typeError := by
+  rw [guardLTL_eq' Mobj f k hb]
+  cases f <;> rfl
+
+/-- `CTLS.modelcheck`: passes iff a Kripke structure and a CTL* state formula (PL-module objects are cast to CTL*) -/
 theorem guardCTLS_eq (Mobj : Logic) (f : Fm) (k : Bool) (hb : inLogic Mobj f = true) :
-    guardCTLS refTable Mobj f k =
-      if k && (Mobj != .PL) && f.isCTLSState then .ok () else .error .typeError := by
+    guardCTLS refTable Mobj f k = if k && f.isCTLSState then .ok () else .error .typeError := by
   unfold guardCTLS
   rw [isSub_CTLS_Formula _ _ (opIn_of_inLogic _ _ hb)]
   cases k
   · simp
-  · cases hM : (Mobj != Logic.PL)
-    · simp
-    · rw [guardCTL_eq Mobj (stripQ f) true (fun h => isCTL_stripQ f (by subst h; exact hb)), isCTLState_stripQ]
-      simp
+  · cases Mobj with
+    | PL =>
+      have hc : castTo refTable .PL .CTLS f = .ok () := (build_ok_iff .CTLS _ f).mpr rfl
+      simp only [bne_self_eq_false, Bool.not_false, if_true, hc, isSub_CTLS_Formula']
+      rw [guardCTL_eq .CTLS (stripQ f) true (fun h => by cases h), isCTLState_stripQ]
+    | CTL =>
+      simp only [show (Logic.CTL != Logic.PL) = true from rfl, Bool.not_true, Bool.false_eq_true, if_false,
+        isSub_CTLS_Formula _ _ (opIn_of_inLogic _ _ hb), if_true]
+      rw [guardCTL_eq .CTL (stripQ f) true (fun _ => isCTL_stripQ f hb), isCTLState_stripQ]
+    | LTL =>
+      simp only [show (Logic.LTL != Logic.PL) = true from rfl, Bool.not_true, Bool.false_eq_true, if_false,
+        isSub_CTLS_Formula _ _ (opIn_of_inLogic _ _ hb), if_true]
+      rw [guardCTL_eq .LTL (stripQ f) true (fun h => by cases h), isCTLState_stripQ]
+    | CTLS =>
+      simp only [show (Logic.CTLS != Logic.PL) = true from rfl, Bool.not_true, Bool.false_eq_true, if_false,
+        isSub_CTLS_Formula _ _ (opIn_of_inLogic _ _ hb), if_true]
+      rw [guardCTL_eq .CTLS (stripQ f) true (fun h => by cases h), isCTLState_stripQ]
 
 end PMC.Classes
